@@ -198,10 +198,17 @@ def run(ctx):
         try:
             real.reset_process_state()
             real.set_store(["memory", "local"][ki % 2], os.path.join(base, "si"), os.path.join(base, "sd"))
-            src = ("import dds\nfrom ddsverif_rt import log, term, boom\n\n"
-                   "def ok():\n    log('ok')\n    return term('ok')\n\n"
-                   "def bad():\n    log('bad')\n    boom(%r, 'tok%d')\n\n"
-                   "def f0():\n    a = dds.keep('/k/ok', ok)\n    b = dds.keep('/k/bad', bad)\n    return term('f0', a, b)\n" % (kind, ki))
+            if ki % 3 == 2:
+                # the kept callable is a class whose constructor fails
+                src = ("import dds\nfrom ddsverif_rt import log, term, boom\n\n"
+                       "def ok():\n    log('ok')\n    return term('ok')\n\n"
+                       "class bad(object):\n    def __init__(self):\n        log('bad')\n        boom(%r, 'tok%d')\n\n"
+                       "def f0():\n    a = dds.keep('/k/ok', ok)\n    b = dds.keep('/k/bad', bad)\n    return term('f0', a, b)\n" % (kind, ki))
+            else:
+                src = ("import dds\nfrom ddsverif_rt import log, term, boom\n\n"
+                       "def ok():\n    log('ok')\n    return term('ok')\n\n"
+                       "def bad():\n    log('bad')\n    boom(%r, 'tok%d')\n\n"
+                       "def f0():\n    a = dds.keep('/k/ok', ok)\n    b = dds.keep('/k/bad', bad)\n    return term('f0', a, b)\n" % (kind, ki))
             os.makedirs(os.path.join(base, pkg), exist_ok=True)
             open(os.path.join(base, pkg, "__init__.py"), "w").close()
             with open(os.path.join(base, pkg, "main.py"), "w") as fh:
